@@ -8,7 +8,7 @@
   `parts xs range` is the record sequence of the caller's loop (repeated calls advancing by `raw`).
   Not modelled: the re-apply/merge path of `linepart::array::apply` in mpt++/linepart.cpp.
 -/
-import MptModel.Lemmas.LinepartFrac
+import MptModel.Lemmas.LinepartFlag
 
 namespace Mpt.C18
 open Mpt.Visible Mpt.Linepart
@@ -69,41 +69,28 @@ theorem interior_visible (xs : List Rat) (r : Range) :
     InteriorVisible r xs (parts xs (some r)) 0 :=
   partsAux_interior r xs xs.length xs 0 (by intro j; simp) (Nat.le_refl _)
 
-/-- **Fraction accuracy**: decoding the 16-bit code of a fraction `0 ≤ f ≤ 1` gives `f` up to one unit of
-    the encoding, never more than `f`: `0 ≤ f − real (code f) ≤ 1/65536`; the code itself fits 16 bits. -/
+/-- **Fraction accuracy**: decoding the 16-bit code of a fraction `0 ≤ f ≤ 1` gives `f` up to one unit of the
+    encoding: `|real (code f) − f| ≤ 1/65536`; the code fits 16 bits, and a non-zero fraction never gets the
+    code 0 (which the consumers read as "nothing cut"). -/
 theorem fraction_accuracy (f : Rat) (h0 : 0 ≤ f) (h1 : f ≤ 1) :
-    real (code f) ≤ f ∧ f - real (code f) ≤ 1 / 65536 ∧ 0 ≤ code f ∧ code f ≤ 65535 :=
-  ⟨(code_accuracy f h0 h1).1, (code_accuracy f h0 h1).2, (code_bounds f h0 h1).1, (code_bounds f h0 h1).2⟩
+    real (code f) - f ≤ 1 / 65536 ∧ f - real (code f) ≤ 1 / 65536 ∧ 0 ≤ code f ∧ code f ≤ 65535 ∧
+    (0 < f → 1 ≤ code f) :=
+  ⟨(code_accuracy f h0 h1).1, (code_accuracy f h0 h1).2, (code_bounds f h0 h1).1, (code_bounds f h0 h1).2,
+   fun hp => code_pos f hp h1⟩
 
-example : code (2/3) = 43690 ∧ real 43690 = 21845/32768 := by decide +kernel
+example : code (2/3) = 43690 ∧ real 43690 = 21845/32768 ∧ code (1/131072) = 1 := by decide +kernel
 
 /-- **The stored cut is the code of the exact crossing fraction**: when a part draws at least two points and
     its first point `x0` is invisible, the second point `x1` is visible, the stored `cut` is the code of the
-    fraction `t` with `x0 + t·(x1 − x0) = bound` (`bound` = the range limit next to `x0`), and `0 < t ≤ 1`. -/
+    fraction `t` with `x0 + t·(x1 − x0) = bound` (`bound` = the range limit next to `x0`), and `0 < t ≤ 1`; the stored code is not 0. -/
 theorem cut_is_crossing (xs : List Rat) (r : Range) (x0 x1 : Rat)
     (h0 : xs[0]? = some x0) (h1 : xs[1]? = some x1) (ho : ¬ insideAt r xs 0)
     (hu : 2 ≤ (linepartLinear xs (some r)).usr) :
-    r.has x1 = true ∧
+    r.has x1 = true ∧ 0 < (linepartLinear xs (some r)).cut ∧
     (linepartLinear xs (some r)).cut = (code (crossing x0 x1 (nearBound r x0))).toNat ∧
     0 < crossing x0 x1 (nearBound r x0) ∧ crossing x0 x1 (nearBound r x0) ≤ 1 ∧
-    x0 + crossing x0 x1 (nearBound r x0) * (x1 - x0) = nearBound r x0 := by
-  have hum : u16max = 65535 := rfl
-  have hl : 0 < (xs.take u16max).length := by
-    rw [List.length_take]
-    cases xs with
-    | nil => simp at h0
-    | cons a as => simp; omega
-  have ok := linearCore_ok r (xs.take u16max) hl
-  have hu' : 2 ≤ (linearCore r (xs.take u16max)).usr := hu
-  have e0 : (xs.take u16max)[0]? = some x0 := by rw [List.getElem?_take, if_pos (by omega)]; exact h0
-  have e1 : (xs.take u16max)[1]? = some x1 := by rw [List.getElem?_take, if_pos (by omega)]; exact h1
-  have hc := ok.first (by omega) (fun hin => ho ((insideAt_take r xs u16max 0 (by omega)).1 hin))
-  obtain ⟨_, y0, y1, f0, f1, hout, hhas⟩ := headCut_spec r _ hc
-  rw [e0] at f0; rw [e1] at f1; cases f0; cases f1
-  obtain ⟨c1, c2, c3, c4⟩ := cutFrac_crossing r x0 x1 hout hhas
-  refine ⟨hhas, ?_, c2, c3, c4⟩
-  show (linearCore r (xs.take u16max)).cut = _
-  rw [core_cut r _ hc x0 x1 e0 e1, c1, u16_code _ (by grind) c3]
+    x0 + crossing x0 x1 (nearBound r x0) * (x1 - x0) = nearBound r x0 :=
+  cut_crossing xs r x0 x1 h0 h1 ho hu
 
 example : (linepartLinear [-1, 1/2, 1/2] (some ⟨0, 1⟩)).cut = 43690 ∧ crossing (-1) (1/2) 0 = 2/3 := by decide +kernel
 
@@ -115,39 +102,24 @@ theorem trim_is_crossing (xs : List Rat) (r : Range) (prev x : Rat)
     (hp : xs[(linepartLinear xs (some r)).usr - 2]? = some prev)
     (hx : xs[(linepartLinear xs (some r)).usr - 1]? = some x)
     (ho : ¬ insideAt r xs ((linepartLinear xs (some r)).usr - 1)) :
-    r.has prev = true ∧
+    r.has prev = true ∧ 0 < (linepartLinear xs (some r)).trim ∧
     (linepartLinear xs (some r)).trim = (code (crossing x prev (nearBound r x))).toNat ∧
     0 < crossing x prev (nearBound r x) ∧ crossing x prev (nearBound r x) ≤ 1 ∧
-    x + crossing x prev (nearBound r x) * (prev - x) = nearBound r x := by
-  have hum : u16max = 65535 := rfl
-  have hne : 0 < xs.length := by
-    cases xs with
-    | nil => simp at hx
-    | cons a as => simp
-  have okx := linear_ok r xs hne
-  have hule := okx.usr_le
-  change 2 ≤ (linearCore r (xs.take u16max)).usr at hu
-  change xs[(linearCore r (xs.take u16max)).usr - 2]? = some prev at hp
-  change xs[(linearCore r (xs.take u16max)).usr - 1]? = some x at hx
-  change ¬ insideAt r xs ((linearCore r (xs.take u16max)).usr - 1) at ho
-  change (linearCore r (xs.take u16max)).usr ≤ min xs.length u16max at hule
-  obtain ⟨hlt, hz, hus⟩ := core_trim_case r (xs.take u16max) hu
-    (fun hin => ho ((insideAt_take r xs u16max _ (by omega)).1 hin))
-  have ep : (xs.take u16max)[bIdx r (xs.take u16max) - 1]? = some prev := by
-    rw [List.getElem?_take, if_pos (by omega), ← hp]; congr 1; omega
-  have ex : (xs.take u16max)[bIdx r (xs.take u16max)]? = some x := by
-    rw [List.getElem?_take, if_pos (by omega), ← hx]; congr 1; omega
-  obtain ⟨y, hy, hyh⟩ := bIdx_prev_inside r (xs.take u16max) (by omega)
-  rw [ep] at hy; cases hy
-  obtain ⟨z, hz2, hzo⟩ := bIdx_stop r (xs.take u16max) hlt
-  rw [ex] at hz2; cases hz2
-  obtain ⟨c1, c2, c3, c4⟩ := cutFrac_crossing r x prev hzo hyh
-  refine ⟨hyh, ?_, c2, c3, c4⟩
-  show (linearCore r (xs.take u16max)).trim = _
-  rw [core_trim r _ hlt hz prev x ep ex, trimFrac_eq, c1, u16_code _ (by grind) c3]
+    x + crossing x prev (nearBound r x) * (prev - x) = nearBound r x :=
+  trim_crossing xs r prev x hu hp hx ho
 
 example : (linepartLinear [1/2, 1/2, 2] (some ⟨0, 1⟩)).usr = 3 ∧
     (linepartLinear [1/2, 1/2, 2] (some ⟨0, 1⟩)).trim = 43690 := by decide +kernel
+
+/-- **Crossings are marked**: in the records of the repeated calls every drawn end point that lies outside
+    the range — the first point of a part that starts with a cut, the last point of a part that ends with a
+    trim — carries a non-zero fraction code, so a consumer that takes code 0 as "nothing cut"
+    (`polyline::part::points`) never reports an out-of-range point as drawn. -/
+theorem crossings_flagged (xs : List Rat) (r : Range) : Flagged r xs (parts xs (some r)) 0 :=
+  partsAux_flagged r xs xs.length xs 0 (by intro j; simp) (Nat.le_refl _)
+
+example : (parts [131071/131072, 4, 2] (some ⟨1, 4⟩)) = [{ raw := 3, usr := 3, cut := 1, trim := 0 }] := by
+  decide +kernel
 
 /-- **Join keeps the totals**: a successful join yields one record whose `raw` and `usr` are the sums of the
     two records (so the sums over a record list are unchanged), keeps the cut of the first and the trim of
